@@ -55,7 +55,8 @@ def run_scenario(scen, hooks=None, keep_dir=False):
     import numpy as np
 
     hooks = hooks or {}
-    sim = Sim(scen["seed"])
+    long_run = (scen.get("tuner", {}).get("stop", {}).get("max_num_trials_started") or 0) > 100
+    sim = Sim(scen["seed"], max_events=400000, max_log=1200000) if long_run else Sim(scen["seed"])
     seams.install(sim)
     install_pick_tap()
     seams.assert_installed()
